@@ -33,6 +33,7 @@ pub struct SimTable {
     pub stats: Arc<SourceStats>,
     pub sorted_by_k: bool,
     pub unbounded: bool,
+    pub accept_filters: bool,
 }
 
 #[async_trait]
@@ -66,7 +67,10 @@ impl TableProvider for SimTable {
         } else {
             None
         };
-        Ok(Arc::new(SimSourceExec::build(&self.name, self.scripts.clone(), ordering, self.unbounded, proj, Arc::clone(&self.stats))))
+        Ok(Arc::new(
+            SimSourceExec::build(&self.name, self.scripts.clone(), ordering, self.unbounded, proj, Arc::clone(&self.stats))
+                .with_accept_filters(self.accept_filters),
+        ))
     }
 }
 
@@ -160,6 +164,7 @@ pub struct TableSpec {
     pub scripts: Vec<Vec<Step>>,
     pub sorted_by_k: bool,
     pub unbounded: bool,
+    pub accept_filters: bool,
 }
 
 pub fn parse_tables(v: &Value) -> Option<Vec<TableSpec>> {
@@ -170,6 +175,7 @@ pub fn parse_tables(v: &Value) -> Option<Vec<TableSpec>> {
             scripts: parse_table(t.get("parts")?)?,
             sorted_by_k: t.get("sorted").and_then(|x| x.as_bool()).unwrap_or(false),
             unbounded: t.get("unbounded").and_then(|x| x.as_bool()).unwrap_or(false),
+            accept_filters: t.get("filters").and_then(|x| x.as_bool()).unwrap_or(false),
         });
     }
     if out.is_empty() || out.len() > 4 {
@@ -191,6 +197,7 @@ pub fn build_session(env: &EnvSpec, knobs: &Value, tables: &[TableSpec]) -> Opti
             stats: Arc::clone(&st),
             sorted_by_k: t.sorted_by_k,
             unbounded: t.unbounded,
+            accept_filters: t.accept_filters,
         };
         ctx.register_table(t.name.as_str(), Arc::new(tbl)).ok()?;
         stats.push((t.name.clone(), st));
